@@ -543,10 +543,19 @@ class MatEval:
             init = target.resolve("__init__")
             ps = init.params[1:]
             args = {}
+
+            def _arg(a):
+                # an argument the algebra cannot evaluate (e.g. a re-packed LU array, which no algebraic obligation
+                # reads: C10-R12 decides it) stays opaque; using it as a matrix later is still an error
+                try:
+                    return self.ev(f, a, env)
+                except AnalysisError:
+                    return Val("other", norm(a)[:60])
+
             for p, a in zip(ps, e.args):
-                args[p] = self.ev(f, a, env)
+                args[p] = _arg(a)
             for kw in e.keywords:
-                args[kw.arg] = self.ev(f, kw.value, env)
+                args[kw.arg] = _arg(kw.value)
             return Val("obj", cls=target.name, args=args)
         raise AnalysisError(f"{f.qualname}: call outside the matrix grammar: {norm(e)[:60]}")
 
